@@ -57,41 +57,42 @@ func (r mRegion) elems(L int) ([]Elem, bool) {
 	return expectedSlice(r.segs, r.comp, lo, hi, L)
 }
 
+// boundary maps a boundary index k of the spliced region (0 = 5' end, length = 3' end, outside = outward
+// extension of the first/last segment) to an input coordinate. A boundary that falls exactly on the junction of
+// two segments is placed at the end of the earlier one (the convention of Regions.Resize; the statement does not
+// say which of the two coordinates is meant).
+func (r mRegion) boundary(k int) int {
+	order := r.segs
+	d := 1
+	if r.comp {
+		d = -1
+		order = make([][2]int, len(r.segs))
+		for i := range r.segs {
+			order[i] = r.segs[len(r.segs)-1-i]
+		}
+	}
+	for i, sg := range order {
+		h, n := sg[0], sg[1]-sg[0]
+		if r.comp {
+			h = sg[1]
+		}
+		if k <= n || i == len(order)-1 {
+			return h + d*k
+		}
+		k -= n
+	}
+	return 0
+}
+
 // head is the 5' boundary coordinate of the (modified) region in input coordinates.
 func (r mRegion) head() int {
 	lo, _ := r.bounds()
-	n := r.length()
-	first, last := r.segs[0], r.segs[len(r.segs)-1]
-	c5, c3, d := first[0], last[1], 1
-	if r.comp {
-		c5, c3, d = last[1], first[0], -1
-	}
-	firstLen := first[1] - first[0]
-	if r.comp {
-		firstLen = last[1] - last[0]
-	}
-	if lo <= firstLen {
-		return c5 + d*lo
-	}
-	return c3 + d*(lo-n)
+	return r.boundary(lo)
 }
 
 func (r mRegion) tail() int {
 	_, hi := r.bounds()
-	n := r.length()
-	first, last := r.segs[0], r.segs[len(r.segs)-1]
-	c5, c3, d := first[0], last[1], 1
-	if r.comp {
-		c5, c3, d = last[1], first[0], -1
-	}
-	lastLen := last[1] - last[0]
-	if r.comp {
-		lastLen = first[1] - first[0]
-	}
-	if hi >= n-lastLen {
-		return c3 + d*(hi-n)
-	}
-	return c5 + d*hi
+	return r.boundary(hi)
 }
 
 func locToRegion(l Loc) mRegion {
@@ -864,7 +865,7 @@ func TestC15(t *testing.T) {
 		}
 	}
 	e.done(true)
-	n := pick(480, 16000) / shards()
+	n := pick(1600, 32000) / shards()
 	rapidPart(t, c15Prop, st, "rapid", maxInt(n, 10), c15Gen)
 	st.note("%d gts executions in this shard", cliExecs)
 }
